@@ -44,6 +44,7 @@ func init() {
 		"pkg/controllers/state",
 		"pkg/cloudprovider",
 		"pkg/scheduling",
+		"pkg/scheduling/dynamicresources",
 	}, func(g *gen) {
 		g.c18Effects()
 		g.c18DeepCopyFacts()
@@ -682,6 +683,151 @@ func (g *gen) c18Mechanisms() {
 			b.WriteString(leanStr(s))
 		}
 		b.WriteString("]\n\n")
+	}
+	// (4) the DRA allocator's per-(NodeClaim, instance type) counter budget, which AllocationTracker.commitTemplateCounters
+	// lowers in place, is built by computeTemplateTotals from the provider's ResourceSliceTemplate.SharedCounters: every
+	// value it stores into the maps it returns must be a map it made itself or a Counter literal whose fields are
+	// DeepCopy() results (never a map / quantity taken from the template)
+	if _, fd := g.findFunc("pkg/scheduling/dynamicresources", "computeTemplateTotals"); fd != nil {
+		// how every local identifier gets its value: make(...) | lookup:<ident> | nil-var | other
+		kinds := map[string][]string{}
+		note := func(name, k string) { kinds[name] = append(kinds[name], k) }
+		classify := func(e ast.Expr) string {
+			switch x := e.(type) {
+			case *ast.CallExpr:
+				if id, ok := x.Fun.(*ast.Ident); ok && id.Name == "make" {
+					return "make"
+				}
+			case *ast.IndexExpr:
+				if id, ok := x.X.(*ast.Ident); ok {
+					return "lookup:" + id.Name
+				}
+			}
+			return "other"
+		}
+		ast.Inspect(fd.Body, func(n ast.Node) bool {
+			switch s := n.(type) {
+			case *ast.AssignStmt:
+				if len(s.Rhs) == 1 {
+					if id, ok := s.Lhs[0].(*ast.Ident); ok && id.Name != "_" {
+						note(id.Name, classify(s.Rhs[0]))
+					}
+				} else {
+					for i, l := range s.Lhs {
+						if id, ok := l.(*ast.Ident); ok && i < len(s.Rhs) {
+							note(id.Name, classify(s.Rhs[i]))
+						}
+					}
+				}
+			case *ast.RangeStmt:
+				for _, e := range []ast.Expr{s.Key, s.Value} {
+					if id, ok := e.(*ast.Ident); ok && id.Name != "_" {
+						note(id.Name, "other")
+					}
+				}
+			case *ast.ValueSpec:
+				for i, id := range s.Names {
+					if i < len(s.Values) {
+						note(id.Name, classify(s.Values[i]))
+					} else {
+						note(id.Name, "nil-var")
+					}
+				}
+			}
+			return true
+		})
+		fresh := map[string]bool{}
+		for name, ks := range kinds {
+			for _, k := range ks {
+				if k == "make" {
+					fresh[name] = true
+				}
+			}
+		}
+		for changed := true; changed; {
+			changed = false
+			for name := range fresh {
+				for _, k := range kinds[name] {
+					ok := k == "make" || k == "nil-var" || (strings.HasPrefix(k, "lookup:") && fresh[strings.TrimPrefix(k, "lookup:")])
+					if !ok {
+						delete(fresh, name)
+						changed = true
+						break
+					}
+				}
+			}
+		}
+		copyLiteral := func(e ast.Expr) bool {
+			cl, ok := e.(*ast.CompositeLit)
+			if !ok || len(cl.Elts) == 0 {
+				return false
+			}
+			for _, el := range cl.Elts {
+				kv, ok := el.(*ast.KeyValueExpr)
+				if !ok {
+					return false
+				}
+				ce, ok := kv.Value.(*ast.CallExpr)
+				if !ok || !strings.HasSuffix(exprString(ce.Fun), ".DeepCopy") {
+					return false
+				}
+			}
+			return true
+		}
+		var stores [][2]string
+		ast.Inspect(fd.Body, func(n ast.Node) bool {
+			as, ok := n.(*ast.AssignStmt)
+			if !ok {
+				return true
+			}
+			for i, l := range as.Lhs {
+				ix, ok := l.(*ast.IndexExpr)
+				if !ok || i >= len(as.Rhs) {
+					continue
+				}
+				kind := "other"
+				if id, ok := as.Rhs[i].(*ast.Ident); ok && fresh[id.Name] {
+					kind = "fresh-map"
+				} else if copyLiteral(as.Rhs[i]) {
+					kind = "deepcopy-literal"
+				}
+				base := g.render(ix.X)
+				if id, ok := ix.X.(*ast.Ident); !ok || !fresh[id.Name] {
+					kind = "other" // the map written to is not one the function made
+				}
+				stores = append(stores, [2]string{base + "[…] = " + g.render(as.Rhs[i]), kind})
+			}
+			return true
+		})
+		var rets []string
+		ast.Inspect(fd.Body, func(n ast.Node) bool {
+			if r, ok := n.(*ast.ReturnStmt); ok && len(r.Results) > 0 {
+				k := "other"
+				if id, ok := r.Results[0].(*ast.Ident); ok && fresh[id.Name] {
+					k = "fresh-map"
+				}
+				rets = append(rets, k)
+			}
+			return true
+		})
+		fmt.Fprintf(b, "/-- every map store in `dynamicresources.computeTemplateTotals` (%s): the statement and what is stored\n    (`fresh-map` = a map the function made itself, `deepcopy-literal` = a literal whose fields are `DeepCopy()` results) -/\ndef templateTotalsStores : List (String × String) := [", g.pos(fd.Pos()))
+		for i, s := range stores {
+			if i > 0 {
+				b.WriteString(", ")
+			}
+			fmt.Fprintf(b, "(%s, %s)", leanStr(s[0]), leanStr(s[1]))
+		}
+		b.WriteString("]\n")
+		fmt.Fprintf(b, "/-- what `computeTemplateTotals` returns -/\ndef templateTotalsReturns : List String := [")
+		for i, s := range rets {
+			if i > 0 {
+				b.WriteString(", ")
+			}
+			b.WriteString(leanStr(s))
+		}
+		b.WriteString("]\n\n")
+	} else {
+		g.errf("c18: dynamicresources.computeTemplateTotals not found")
 	}
 	// nomination window: max(2*BatchMaxDuration, 10s)
 	if _, fd := g.findFunc("pkg/controllers/state", "nominationWindow"); fd != nil {
